@@ -17,7 +17,7 @@ func init() {
 	mc.Register(&mc.Check{
 		ID:    "C03",
 		Level: "exploration",
-		Rule: "engine B+F: every string magic+<=2 (thorough <=3) bytes; for each of 2x256 opcodes every operand-width combination, payload class per position, repeat count and truncation point; " +
+		Rule: "engine B+F: every string magic+<=3 (thorough <=4: all 2^32 tails) bytes; for each of 2x256 opcodes every operand-width combination, payload class per position, repeat count and truncation point; " +
 			"all instruction sequences to depth 3 (thorough 4) over a 30-fragment alphabet; the metadata shape space; every prefix and every single-byte substitution of all 971 corpus files (31M strings). " +
 			"Each string is decoded by decode.Decode into a recorder and by the reference parser; accept/reject and the call list must agree bit for bit. " +
 			"distinct = hash of (accepted, sequence of call kinds/ADJ/flags); non-trivial = accepted and delivering at least one drawing operation",
@@ -45,13 +45,16 @@ func c03Units(tier string) []gen.Unit {
 		return u
 	}
 	us := genUnits(tier)
+	if tier == "thorough" {
+		us = append(us[:len(us):len(us)], gen.TinyUnits(4)...) // all 2^32 four-byte tails after the magic
+	}
 	if tier != "thorough" {
 		seen := map[string]bool{}
 		for _, u := range us {
 			seen[u.Name] = true
 		}
 		for _, u := range genUnits("thorough") {
-			if strings.HasPrefix(u.Name, "corpus/subst/") && !seen[u.Name] {
+			if (strings.HasPrefix(u.Name, "corpus/subst/") || strings.HasPrefix(u.Name, "tiny/3/")) && !seen[u.Name] {
 				us = append(us[:len(us):len(us)], u)
 			}
 		}
